@@ -992,6 +992,11 @@ func (c *CEnv) call(x *ast.CallExpr) CVal {
 			return c.fail("selrecv(%d): the select has no such receive case", k)
 		}
 		return CVal{S: tup[2+k], T: tt.At(2 + k).Type()}
+	case "same":
+		// same(a, b): identity of values (SMT equality), e.g. for struct values with float fields where Go's ==
+		// (IEEE comparison, NaN != NaN) is not what a definition needs
+		a, b := c.unify(c.ev(arg(0)), c.ev(arg(1)))
+		return CVal{S: fmt.Sprintf("(= %s %s)", a.S, b.S), T: boolT}
 	case "inre":
 		// inre(s, "go regular expression"): MatchString semantics
 		lit, ok := arg(1).(*ast.BasicLit)
